@@ -628,6 +628,13 @@ class RequestHandler(BaseProtocol, Generic[_Request]):
             finally:
                 self._current_request = None
         except HTTPException as exc:
+            if request.writer.output_size > 0:
+                # The handler had already started a response: a second one
+                # cannot be sent on top of it (same rule as in handle_error())
+                raise ConnectionError(
+                    "Response is sent already, cannot send another response "
+                    "for the raised HTTPException"
+                ) from exc
             # Uncaught parser error
             if request._pre_handler_error is exc:
                 self.logger.warning(
@@ -884,6 +891,12 @@ class RequestHandler(BaseProtocol, Generic[_Request]):
             else:
                 self.log_exception(
                     f"Web-handler should return a response instance, got {resp!r}"
+                )
+            if request.writer.output_size > 0:
+                # some data already got sent, connection is broken
+                raise ConnectionError(
+                    "Response is sent already, cannot send another response "
+                    "with the error message"
                 )
             exc = HTTPInternalServerError()
             resp = Response(
